@@ -1,4 +1,180 @@
-(* C17 — a B-tree store behaves as a correctly ordered collection. (in progress) *)
-From Coq Require Import List ZArith NArith.
-From SopVerif Require Import OMap Btree.
+(* C17 — a B-tree store behaves as a correctly ordered collection.
+
+   Layers: OMap (specification: key-sorted item list + cursor), Btree (node-level
+   model transcribed from btree.go / node.go / node.handlenilchild.go), BtreeSim
+   (the refinement statement sim_run).  Status of the theorems below:
+     FULL      proved for every input, unbounded      (spec layer, lifting, transfer)
+     REFUTED   the full statement is false of the faithful model; witness reproduced on the real code
+     PARTIAL   the refinement with an explicit hypothesis for what is not proved by induction
+     BOUNDED   vm_compute over a finite domain, bound in the statement; not the claim *)
+From Coq Require Import List ZArith NArith Bool.
+From SopVerif Require Import OMap OMapProofs OMapProofs2 Btree BtreeSim BtreeProofs BtreeProofs2
+  BtreeBounded1 BtreeBounded2 BtreeBounded3 Corr.C17.
 Import ListNotations.
+Local Open Scope Z_scope.
+
+(* ---------------------------------------------------------------- FULL: the specification *)
+
+(* every accepted run of the specification, whatever the calls and the resolved choices:
+   keys sorted, ids distinct, keys distinct in a unique store, cursor inside the list *)
+Theorem C17_spec_ordered : forall u ops s rs, orun u empty_omap ops = Some (s, rs) ->
+  sorted (items s) /\ NoDup (map iid (items s)) /\ (u = true -> NoDup (map ikey (items s))) /\
+  (forall i, cur s = CAt i -> (i < length (items s))%nat).
+Proof.
+  intros u ops s rs H. destruct (orun_inv u ops _ _ _ (Inv_empty u) H) as [H1 [H2 _] H3 H4]. auto.
+Qed.
+Print Assumptions C17_spec_ordered.
+
+(* First then Next.. returns exactly the items in stored (key) order; Last then Previous.. the reverse *)
+Theorem C17_forward_scan : forall u s, scan_forward u s = map key_id (items s).
+Proof. exact scan_forward_spec. Qed.
+Print Assumptions C17_forward_scan.
+
+Theorem C17_backward_scan : forall u s, scan_backward u s = map key_id (rev (items s)).
+Proof. exact scan_backward_spec. Qed.
+Print Assumptions C17_backward_scan.
+
+(* results and count of adds, conditional adds and removals *)
+Theorem C17_add_result : forall u s k v h s' r, ostep u s (OAdd k v) h = Some (s', r) ->
+  ocount s' = ocount s + (if rok r then 1 else 0) /\
+  (u = true -> rok r = negb (has_key (items s) k)) /\ (u = false -> rok r = true).
+Proof. exact count_add. Qed.
+Print Assumptions C17_add_result.
+
+Theorem C17_add_if_not_exist_result : forall u s k v h s' r, ostep u s (OAddIfNotExist k v) h = Some (s', r) ->
+  ocount s' = ocount s + (if rok r then 1 else 0) /\ rok r = negb (has_key (items s) k).
+Proof. exact count_add_if_not_exist. Qed.
+Print Assumptions C17_add_if_not_exist_result.
+
+Theorem C17_remove_result : forall u s k h s' r, ostep u s (ORemove k) h = Some (s', r) ->
+  ocount s' = ocount s - (if rok r then 1 else 0).
+Proof. exact count_remove. Qed.
+Print Assumptions C17_remove_result.
+
+Theorem C17_remove_current_result : forall u s h s' r, ostep u s ORemoveCurrent h = Some (s', r) ->
+  ocount s' = ocount s - (if rok r then 1 else 0).
+Proof. exact count_remove_current. Qed.
+Print Assumptions C17_remove_current_result.
+
+(* updates: no update call changes a key, an id or the order; a key comparing unequal is rejected *)
+Theorem C17_update_keeps_order : forall u s o h s' r, Inv u s -> is_update o = true ->
+  ostep u s o h = Some (s', r) -> map key_id (items s') = map key_id (items s).
+Proof. exact update_keeps_keys. Qed.
+Print Assumptions C17_update_keeps_order.
+
+Theorem C17_key_change_rejected : forall s i x k v, cur s = CAt i -> nth_error (items s) i = Some x -> ikey x <> k ->
+  update_current s k v = (s, reject s) /\ rok (reject s) = false /\ rerr (reject s) <> ENone.
+Proof.
+  intros s i x k v H1 H2 H3. split; [eapply reject_key_change; eauto|apply reject_not_ok].
+Qed.
+Print Assumptions C17_key_change_rejected.
+
+(* ---------------------------------------------------------------- FULL: transfer to the node level *)
+
+(* whenever the node-level run simulates (sim_run = true) it IS an accepted specification run
+   with the same results, outputs and errors, and the node structure is an ordered collection *)
+Theorem C17_sim_is_spec_run : forall cfg ops b s, sim_from cfg b s ops = true ->
+  exists hs s' rs,
+    length hs = length ops /\
+    orun (cunique cfg) s (combine ops hs) = Some (s', rs) /\
+    let '(b', rbs) := brun cfg b ops in
+    map rok rs = map rok rbs /\ map rerr rs = map rerr rbs /\ map rout rs = map rout rbs /\
+    (ops <> [] -> items s' = b_inorder b' /\ ocount s' = bcount b' /\ current_key s' = bcurrent_key b').
+Proof. exact sim_from_orun. Qed.
+Print Assumptions C17_sim_is_spec_run.
+
+Theorem C17_sim_ordered : forall cfg ops, sim_run cfg ops = true ->
+  let b := fst (brun cfg empty_bstate ops) in
+  sorted (b_inorder b) /\ bcount b = Z.of_nat (length (b_inorder b)) /\
+  NoDup (map iid (b_inorder b)) /\ (cunique cfg = true -> NoDup (map ikey (b_inorder b))).
+Proof. exact sim_run_ordered. Qed.
+Print Assumptions C17_sim_ordered.
+
+(* ---------------------------------------------------------------- the refinement statement *)
+
+Definition valid_cfg (cfg : bcfg) : Prop := 2 <= cL cfg /\ Z.even (cL cfg) = true.
+
+(* the full claim: every call sequence, every even slot length >= 2, unique and duplicate,
+   with and without leaf load balancing *)
+Definition C17_full : Prop := forall cfg ops, valid_cfg cfg -> sim_run cfg ops = true.
+
+(* REFUTED with leaf load balancing on (slot length 2): unsorted scan; ghost zero item and wrong
+   count; wrong order among duplicates.  Each witness runs through the harness corpus on the
+   real code on every check (findings lb:add:unsorted / lb:add:ghost-item / lb:add:content). *)
+Theorem C17_lb_refuted : ~ C17_full.
+Proof.
+  intros H. specialize (H cfg_lb2 lb_witness_content ltac:(split; [cbn; discriminate|reflexivity])).
+  destruct lb_content_witness as [Hf _]. congruence.
+Qed.
+Print Assumptions C17_lb_refuted.
+
+Theorem C17_lb_refuted_unsorted : exists ops,
+  sortedb (b_inorder (fst (brun cfg_lb2 empty_bstate ops))) = false.
+Proof. exists lb_witness_unsorted. exact (proj1 lb_unsorted_witness). Qed.
+Print Assumptions C17_lb_refuted_unsorted.
+
+Theorem C17_lb_refuted_ghost : exists ops,
+  let b := fst (brun cfg_lb2 empty_bstate ops) in
+  existsb (fun x => N.eqb (iid x) 0) (b_inorder b) = true /\
+  Z.eqb (bcount b) (Z.of_nat (length (b_inorder b))) = false.
+Proof. exists lb_witness_ghost. destruct lb_ghost_witness as [H1 [H2 _]]. split; assumption. Qed.
+Print Assumptions C17_lb_refuted_ghost.
+
+(* REFUTED: "updates that would change the order are rejected" — the rejection right after a
+   failed unique Add is a nil-dereference panic, not an error (finding update-reject-nil-deref) *)
+Theorem C17_reject_refuted : exists cfg ops, In EPanic (map rerr (snd (brun cfg empty_bstate ops))).
+Proof.
+  exists (mkCfg 4 true false), reject_witness.
+  pose proof reject_panic_witness as H. destruct (brun (mkCfg 4 true false) empty_bstate reject_witness) as [b rs].
+  destruct H as [H _]. cbn [snd]. rewrite H. cbn. auto.
+Qed.
+Print Assumptions C17_reject_refuted.
+
+(* the claim for the default configuration (leaf load balancing off): stated, tested (harness),
+   bounded below, and reduced to a per-call simulation by C17_refines_partial; its inductive
+   proof (invariant WF + one simulation lemma per call) is NOT closed *)
+Definition C17_full_nolb : Prop :=
+  forall cfg ops, valid_cfg cfg -> clb cfg = false -> sim_run cfg ops = true.
+
+(* PARTIAL: refinement of whole runs from the per-call simulation.  The hypothesis names exactly
+   what is assumed: a relation R between node-level and specification states that holds initially
+   and is re-established by every allowed call together with agreement of all observables
+   (sim_step).  Proved by induction on the call list for every configuration. *)
+Theorem C17_refines_partial : forall cfg (R : bstate -> omap -> Prop) (allowed : op -> Prop),
+  R empty_bstate empty_omap ->
+  (forall b s o, R b s -> allowed o -> exists b' s', sim_step cfg b s o = Some (b', s') /\ R b' s') ->
+  forall ops, Forall allowed ops -> sim_run cfg ops = true.
+Proof.
+  intros cfg R allowed H0 Hstep ops Hall. unfold sim_run. eapply sim_lift; eauto.
+Qed.
+Print Assumptions C17_refines_partial.
+
+(* BOUNDED (not the claim): every call sequence up to the stated length over the stated alphabet,
+   by exhaustive evaluation inside Coq *)
+Theorem C17_bounded_L2_7 : forall ops, (length ops <= 7)%nat -> Forall (fun o => In o alpha_mut) ops ->
+  sim_run (mkCfg 2 false false) ops = true.
+Proof. exact bounded_L2_dup_mut. Qed.
+Print Assumptions C17_bounded_L2_7.
+
+Theorem C17_bounded_L2_unique_5 : forall ops, (length ops <= 5)%nat -> Forall (fun o => In o alpha_mut_u) ops ->
+  sim_run (mkCfg 2 true false) ops = true.
+Proof. exact bounded_L2_unique_mut. Qed.
+Print Assumptions C17_bounded_L2_unique_5.
+
+Theorem C17_bounded_L2_mixed_5 : forall ops, (length ops <= 5)%nat -> Forall (fun o => In o alpha_mixed) ops ->
+  sim_run (mkCfg 2 false false) ops = true.
+Proof. exact bounded_L2_dup_mixed. Qed.
+Print Assumptions C17_bounded_L2_mixed_5.
+
+Theorem C17_bounded_L4_7 : forall ops, (length ops <= 7)%nat -> Forall (fun o => In o alpha_L4) ops ->
+  sim_run (mkCfg 4 false false) ops = true.
+Proof. exact bounded_L4_dup. Qed.
+Print Assumptions C17_bounded_L4_7.
+
+(* non-vacuity: a run with a root split, a removal through the successor swap and both scans is
+   accepted by the specification and simulated by the node-level model *)
+Example C17_nonvacuous :
+  let ops := [OAdd 5 1; OAdd 3 2; OAdd 8 3; OAdd 5 4; OAdd 1 5; ORemove 5; OFirst; ONext; ONext; OLast; OPrev] in
+  sim_run (mkCfg 2 false false) ops = true /\
+  map ikey (b_inorder (fst (brun (mkCfg 2 false false) empty_bstate ops))) = [1; 3; 5; 8].
+Proof. vm_compute. split; reflexivity. Qed.
